@@ -112,7 +112,7 @@ PROPS["C12"] = {
         {"pkg": "app", "name": "VerifC12_RevDeps3", "quick": {}, "thorough": {}, "replay_repeat": 40,
          "bounds": {"N": 3, "edges": "all 2^6 dependency relations", "running": "all subsets", "map order": "every iteration order"}},
         {"pkg": "app", "name": "VerifC12_Project", "quick": {"d": 0}, "thorough": {"d": 1}, "replay_repeat": 8, "reach": ["end", "unrelated.stopped.concurrently"],
-         "bounds": {"shapes": "chain / fan-in / fan-out / diamond / dependent still Pending on process_completed", "running at shutdown": "every subset (the others have completed)", "termination latency": "immediate or only when nothing else can happen, per process"}},
+         "bounds": {"shapes": "chain / fan-in / fan-out / diamond / dependent still Pending on process_completed / disabled dependent started by hand", "running at shutdown": "every subset (the others have completed)", "termination latency": "immediate or only when nothing else can happen, per process"}},
     ],
     "stubs": [],
     "assumptions": [],
@@ -337,7 +337,7 @@ _lv("C07", 'validateNoCircularDependencies + validateDependencyIsEnabled against
 _lv("C10", "ValidateAndSetDefaults for full-range ints and HTTP target strings; healthCheckCompleted for thresholds [-1,4] over every outcome sequence of 6 checks and every stop instant; real Prober.Start/Stop against go-health's Start/Stop contract for stop before/after the initial delay; process coupling: every outcome sequence of 4 readiness checks x restart policy (Ready/Not Ready, one stop at the threshold, relaunch by policy, readiness forgotten); daemon + liveness: fatal result while launching or after launch, handled by the restart policy.",
     'go-health scheduler replaced by its callback and Start/Stop contract (Lifecycle replays natively against the real one); HTTP/exec checkers not run; Coupling and Daemon are engine-only.')
 
-_lv("C12", 'runningProcessesReverseDependencies for every dependency relation over 3 names x running subset x map order; real ordered ShutDownProject on chain / fan-in / fan-out / diamond with every subset already completed and every termination latency mix: no stop signal while a dependent that was running at shutdown is alive, shutdown completes, unrelated processes are stopped concurrently (witness); a dependent still Pending on process_completed when the shutdown begins does not block it.',
+_lv("C12", 'runningProcessesReverseDependencies for every dependency relation over 3 names x running subset x map order; real ordered ShutDownProject on chain / fan-in / fan-out / diamond with every subset already completed and every termination latency mix: no stop signal while a dependent that was running at shutdown is alive, shutdown completes, unrelated processes are stopped concurrently (witness); a dependent still Pending on process_completed when the shutdown begins does not block it; a disabled dependent that was started by hand is waited for like any other.',
     'Stub Commander; N<=4.')
 
 _lv("C13", 'CalculateReplicaName for every count 1..128 (1..1100 thorough) and symbolic i<j<n; real ScaleProcess from 1-3 replicas (each running, already completed, or waiting out a restart back-off) to {-1,0,1,2,3,9,10,11} (two successive requests thorough), and two successive requests from {99,100,101} across the 99/100 name-width boundary: listed replicas, their state/info/log and rendered configuration equal a fresh load with replicas: n; survivors not restarted, removed terminated, added launched once, bystander untouched, n<1/unknown name rejected.',
